@@ -3,7 +3,7 @@
 //@ item src/word.rs struct SegPos
 //@ item src/word.rs impl SegPos members=new,reversed,increment,decrement,at_word_start,at_word_end,at_syll_start,at_syll_end
 //@ item src/word.rs struct Word
-//@ item src/word.rs impl Word members=in_bounds,out_of_bounds,get_seg_at,seg_length_at,apply_seg_mods
+//@ item src/word.rs impl Word members=in_bounds,out_of_bounds,get_seg_at,seg_length_at,apply_seg_mods,remove_syll,get_syll_segments
 
 //@ post
 // ------------------------------------------------------------------ positions in a word
@@ -147,4 +147,14 @@ fn law_reversed(w: &Word, p: SegPos)
             nseg(*final(self), start_pos.syll_index as int) == nseg(*old(self), start_pos.syll_index as int)
             && syll_at(*final(self), start_pos.syll_index as int).stress == syll_at(*old(self), start_pos.syll_index as int).stress
             && syll_at(*final(self), start_pos.syll_index as int).tone == syll_at(*old(self), start_pos.syll_index as int).tone),
+//@ end
+
+//@ contract Word::remove_syll
+    requires /*#remove_syll.keeps_one_syllable C02,C08*/ nsyll(*old(self)) > 1, syll_index < nsyll(*old(self)),
+    ensures /*#remove_syll.removes_exactly_that_syllable C14,C08*/ nsyll(*final(self)) == nsyll(*old(self)) - 1
+        && (forall|s: int| 0 <= s < syll_index ==> syll_at(*final(self), s) == syll_at(*old(self), s))
+        && (forall|s: int| syll_index <= s < nsyll(*final(self)) ==> syll_at(*final(self), s) == syll_at(*old(self), s + 1)),
+//@ end
+//@ contract Word::get_syll_segments ret=r
+    ensures (syll_index < nsyll(*self)) == r.is_some(), r matches Some(v) ==> v@ == segs(*self, syll_index as int),
 //@ end
